@@ -762,6 +762,35 @@ class CSA:
                 return [(s, en, 'v', ('error', name))]
             if q in ('Vec', 'String', 'Bytecode'):
                 return [(s, en, 'v', ('unk', name))]
+            # a function without `self` cannot touch the compiler's state: its body is evaluated on the argument values (a table
+            # such as operator -> opcode folds; anything the evaluation does not model falls back to `pure conversion` below)
+            target = None
+            if q is None and name in self.free_fns:
+                target = self.free_fns[name]
+            elif q in ('Self', 'Compiler') and name in self.methods and not any(i_.get('self') for i_ in self.methods[name]['inputs']):
+                target = self.methods[name]
+            if target is not None and self.depth < 6:
+                params = [i_ for i_ in target['inputs'] if not i_.get('self')]
+                if len(params) == len(vals) and all(p_['pat'].get('k') == 'p_ident' for p_ in params):
+                    env2 = {p_['pat']['name']: v_ for p_, v_ in zip(params, vals)}
+                    self.depth += 1
+                    try:
+                        outs = self.ev_block(target['body'], s.clone(), env2)
+                        res = []
+                        okk = True
+                        for s1, e1, kind, v in outs:
+                            if kind in ('v', 'ret'):
+                                res.append((s1, en, 'v', v))
+                            else:
+                                okk = False
+                        if okk and res and not (q is None and name in self.free_fns and all(r_[3][0] in ('unk',) for r_ in res)):
+                            return res
+                    except Undecided:
+                        pass
+                    finally:
+                        self.depth -= 1
+                if target is self.methods.get(name) and not (q is None):
+                    raise Undecided('CSA: call of %s at line %s' % ('::'.join(f), e.get('line')))
             if q is None and name in self.free_fns:
                 # a free function of the module cannot touch the compiler's state: it is a pure conversion of its argument
                 ff = self.free_fns[name]
